@@ -783,6 +783,9 @@ def selftest_determinism(engines=None, seeds=200):
                     bad += 1
                     log("NONDETERMINISM engine=%s configuration=%s differing runs=%s" % (job.label, label, diff[:10]))
         log("# determinism %s: %d runs × 4 configurations %s" % (job.label, seeds, "DIFFER" if bad else "identical"))
+    if not engines or "wrapsim" in engines:
+        import gensim
+        bad += gensim.selftest_wrappers()
     return 2 if bad else 0
 
 
